@@ -49,6 +49,11 @@ type sched struct {
 	Rand     *randSpec `json:"rand"`
 	Src      string    `json:"src"`
 	Slack    int       `json:"slack"` // unite: spare capacity of every written slice (cap = len + slack)
+	// unite: the input slices are views into ONE table the producer filled beforehand (chunks of a buffer, sent in an order that
+	// is not their address order; cap of every view reaches the end of the table); lengths are planned from Lens
+	Shared     bool  `json:"shared"`
+	SharedLens []int `json:"shared_lens"`  // optional explicit plan: lengths of the views in the order they are sent ...
+	SharedAddr []int `json:"shared_addr"`  // ... and the order of their indices in memory
 }
 
 type heldObs struct {
@@ -64,7 +69,8 @@ type rec struct {
 	N       int       `json:"n"`     // Write: number of elements (join: 1)
 	Elems   []int     `json:"elems"` // Recv: contents at delivery; Scribble: what the consumer wrote
 	Tail    []int     `json:"tail"`  // Recv: rest of the backing array (len..cap)
-	Mem     int       `json:"mem"`   // identity of the backing array (Recv; unite Write)
+	Mem     int       `json:"mem"`   // identity of the backing array (Recv; unite Write); views into a shared table: one identity per view
+	RMem    int       `json:"rmem"`  // identity by address range including the spare capacity (overlapping ranges share one identity)
 	Ok      bool      `json:"ok"`    // Release: accepted
 	Now     int       `json:"now"`
 	Frac    bool      `json:"frac"` // virtual time is not a whole number of units (never on the unchanged tree)
@@ -103,12 +109,37 @@ type disc struct {
 	stop     func()
 	cancel   func()
 	drainOne func() bool // take one item back from the input (cleanup)
+	planLen  func() int  // unite with a shared table: length of the next input slice
 }
 
 type memMap struct {
 	lo, hi []uintptr
 	id     []int
 	next   int
+	views  map[uintptr][2]int // shared table: data pointer of a non-empty view -> (length, identity)
+}
+
+// view registers a non-empty view into the producer's shared table under an identity of its own
+func (m *memMap) view(s []int) int {
+	if len(s) == 0 {
+		return 0
+	}
+	if m.views == nil {
+		m.views = map[uintptr][2]int{}
+	}
+	m.next++
+	m.views[uintptr(unsafe.Pointer(unsafe.SliceData(s)))] = [2]int{len(s), m.next}
+	return m.next
+}
+
+// ident: the identity of exactly this slice if it is a registered view (same start, same length), else the range identity
+func (m *memMap) ident(s []int) int {
+	if len(s) > 0 && m.views != nil {
+		if v, ok := m.views[uintptr(unsafe.Pointer(unsafe.SliceData(s)))]; ok && v[0] == len(s) {
+			return v[1]
+		}
+	}
+	return m.of(s)
 }
 
 func (m *memMap) of(s []int) int {
@@ -127,7 +158,7 @@ func (m *memMap) of(s []int) int {
 	return m.next
 }
 
-func newDisc(t *testing.T, s *sched, mm *memMap, keep *[][]int) *disc {
+func newDisc(t *testing.T, s *sched, mm *memMap, keep *[][]int) (*disc, error) {
 	unit := time.Duration(s.UnitNs)
 	d := &disc{}
 	switch s.Kind {
@@ -136,7 +167,7 @@ func newDisc(t *testing.T, s *sched, mm *memMap, keep *[][]int) *disc {
 		dsc, err := join.New(join.Opts[int]{Input: in, JoinSize: uint(s.J), NoCopy: s.NoCopy,
 			Timeout: time.Duration(s.T) * unit, TimeoutInaccuracy: uint(s.Inacc)})
 		if err != nil {
-			t.Fatal(err)
+			return nil, err
 		}
 		d.prep = func(first, n int) (func(), int) { return func() { in <- first }, 0 }
 		d.closeIn = func() { close(in) }
@@ -156,9 +187,54 @@ func newDisc(t *testing.T, s *sched, mm *memMap, keep *[][]int) *disc {
 		dsc, err := unite.New(unite.Opts[int]{Input: in, JoinSize: uint(s.J), NoCopy: s.NoCopy,
 			Timeout: time.Duration(s.T) * unit, TimeoutInaccuracy: uint(s.Inacc)})
 		if err != nil {
-			t.Fatal(err)
+			return nil, err
+		}
+		var table []int
+		var offs, lens []int
+		nextChunk := 0
+		if s.Shared {
+			prng := rand.New(rand.NewSource(int64(s.ID)*7919 + 13))
+			lens = make([]int, s.MaxItems+2)
+			total := 0
+			for i := range lens {
+				lens[i] = s.Lens[prng.Intn(len(s.Lens))]
+				total += lens[i]
+			}
+			addr := prng.Perm(len(lens))
+			if len(s.SharedLens) > 0 {
+				lens, addr, total = append([]int{}, s.SharedLens...), append([]int{}, s.SharedAddr...), 0
+				for len(lens) < s.MaxItems+2 { // whatever is written beyond the plan: single elements behind it
+					addr = append(addr, len(lens))
+					lens = append(lens, 1)
+				}
+				for _, n := range lens {
+					total += n
+				}
+			}
+			offs = make([]int, len(lens))
+			pos := 0
+			for _, k := range addr { // address order of the chunks: a permutation of the order they are sent in
+				offs[k] = pos
+				pos += lens[k]
+			}
+			table = make([]int, total)
+			first := 1
+			for k := range lens {
+				for i := 0; i < lens[k]; i++ {
+					table[offs[k]+i] = first + i
+				}
+				first += lens[k]
+			}
+			d.planLen = func() int { return lens[nextChunk] }
 		}
 		d.prep = func(first, n int) (func(), int) {
+			if s.Shared {
+				k := nextChunk
+				nextChunk++
+				sl := table[offs[k] : offs[k]+lens[k]]
+				mm.of(sl)
+				return func() { in <- sl }, mm.view(sl)
+			}
 			sl := make([]int, n, n+s.Slack)
 			if n == 0 && first%2 == 0 {
 				sl = nil // an empty input slice may just as well be nil
@@ -193,7 +269,8 @@ func newDisc(t *testing.T, s *sched, mm *memMap, keep *[][]int) *disc {
 		}
 		dsc, err := v1join.New(opts)
 		if err != nil {
-			t.Fatal(err)
+			cancel()
+			return nil, err
 		}
 		d.prep = func(first, n int) (func(), int) { return func() { in <- first }, 0 }
 		d.closeIn = func() { close(in) }
@@ -220,7 +297,7 @@ func newDisc(t *testing.T, s *sched, mm *memMap, keep *[][]int) *disc {
 	default:
 		t.Fatalf("unknown kind %q", s.Kind)
 	}
-	return d
+	return d, nil
 }
 
 // Release() of v2 blocks on an unbuffered channel: call it from a helper so that a discipline that is not waiting
@@ -320,6 +397,9 @@ func (r *runner) canWrite() bool {
 }
 
 func (r *runner) doWrite(n int) {
+	if r.d.planLen != nil {
+		n = r.d.planLen()
+	}
 	first := r.written + 1
 	r.written += n
 	r.items++
@@ -352,12 +432,17 @@ func (r *runner) doRecv(recordNone bool) int {
 		h := &holding{k: r.nRecv, s: s, watching: true}
 		r.held = append(r.held, h)
 		full := s[:cap(s)]
-		r.emit(rec{Ev: "Recv", X: h.k, N: len(s), Elems: append([]int{}, s...), Tail: append([]int{}, full[len(s):]...), Mem: r.mm.of(s)})
+		r.emit(rec{Ev: "Recv", X: h.k, N: len(s), Elems: append([]int{}, s...), Tail: append([]int{}, full[len(s):]...), Mem: r.mm.ident(s), RMem: r.mm.of(s)})
 		if r.s.Scribble && len(s) > 0 && (!r.s.NoCopy || r.rng.Intn(2) == 0) {
 			for i := range s {
 				s[i] = -(1000*h.k + i + 1)
 			}
-			r.emit(rec{Ev: "Scribble", X: h.k, Elems: append([]int{}, s...)})
+			if !r.s.NoCopy { // copy mode: the whole backing array is the consumer's, it may append into the spare capacity
+				for i := len(s); i < cap(s) && i < len(s)+6; i++ {
+					full[i] = -(1000*h.k + i + 1)
+				}
+			}
+			r.emit(rec{Ev: "Scribble", X: h.k, Elems: append([]int{}, s...), Tail: append([]int{}, full[len(s):]...)})
 		}
 		return 1
 	default:
@@ -562,7 +647,16 @@ func runOne(t *testing.T, s *sched, w *bufio.Writer, f *os.File) (ok bool) {
 			seed = s.Rand.Seed
 		}
 		r.rng = rand.New(rand.NewSource(seed))
-		r.d = newDisc(t, s, mm, &keep)
+		d, err := newDisc(t, s, mm, &keep)
+		if err != nil { // options the constructor refuses (schedules probing the acceptance boundary): nothing runs, nothing to judge
+			r.d = &disc{inLen: func() int { return 0 }, out: make(chan []int)}
+			r.emit(rec{Ev: "Reset", C: &cfgRec{Kind: s.Kind, J: s.J, T: s.T, Inacc: s.Inacc, Div: s.Div, I: s.I, Cap: s.Cap,
+				NoCopy: s.NoCopy, V1: s.Kind == "v1", Ready: s.Ready, Src: s.Src}})
+			r.emit(rec{Ev: "Rejected"})
+			ok = true
+			return
+		}
+		r.d = d
 		r.emit(rec{Ev: "Reset", C: &cfgRec{Kind: s.Kind, J: s.J, T: s.T, Inacc: s.Inacc, Div: s.Div, I: s.I, Cap: s.Cap,
 			NoCopy: s.NoCopy, V1: s.Kind == "v1", Ready: s.Ready, Src: s.Src}})
 		r.autoDrain()
